@@ -209,7 +209,9 @@ type prover struct {
 	sents          map[sentKey]*ssa.Const
 	sentOf         map[ssa.Value]sentKey
 	callIdx        map[*ssa.Function][]ssa.CallInstruction
+	live           map[*ssa.Function]bool
 	asValue        map[*ssa.Function]bool
+	nest           int  // nesting of cached sub-computations (summaries, preconditions, invariants)
 	taint          bool // something was derived without facts that will be available later: do not cache
 }
 
@@ -238,6 +240,18 @@ func newProver(c *Ctx) *prover {
 			}
 		}
 		if key == "" {
+			// a field of a local copy of a by-value parameter that is never written again
+			if fa, ok := strip(u.X).(*ssa.FieldAddr); ok {
+				if al, ok := fa.X.(*ssa.Alloc); ok && readOnlyParamCopy(al) {
+					key = fmt.Sprintf("a:%p.%d", al, fa.Field)
+				}
+			}
+		}
+		if key == "" {
+			// two loads through the same pointer in one block with nothing in between that can write memory
+			if r := earlierSameLoad(u); r != nil {
+				return r
+			}
 			return v
 		}
 		if r, ok := reps[key]; ok {
@@ -305,6 +319,75 @@ func (p *prover) scanStable() {
 			p.immutableField[f] = true
 		}
 	}
+}
+
+// readOnlyParamCopy: the alloc holds a parameter (spilled at entry) and is only read afterwards
+func readOnlyParamCopy(al *ssa.Alloc) bool {
+	stores := 0
+	for _, ref := range *al.Referrers() {
+		switch x := ref.(type) {
+		case *ssa.Store:
+			if x.Addr != ssa.Value(al) {
+				return false // the address itself is stored somewhere
+			}
+			if _, isParam := x.Val.(*ssa.Parameter); !isParam {
+				return false
+			}
+			stores++
+		case *ssa.FieldAddr:
+			for _, r2 := range *x.Referrers() {
+				if u, ok := r2.(*ssa.UnOp); !ok || u.Op != token.MUL {
+					return false
+				}
+			}
+		case *ssa.UnOp:
+			if x.Op != token.MUL {
+				return false
+			}
+		case *ssa.DebugRef:
+		default:
+			return false
+		}
+	}
+	return stores == 1
+}
+
+// earlierSameLoad: an earlier load of the same address in the same block with only non-writing instructions between
+func earlierSameLoad(u *ssa.UnOp) ssa.Value {
+	blk := u.Block()
+	if blk == nil {
+		return nil
+	}
+	idx := -1
+	for i, in := range blk.Instrs {
+		if in == ssa.Instruction(u) {
+			idx = i
+		}
+	}
+	for i := idx - 1; i >= 0; i-- {
+		switch x := blk.Instrs[i].(type) {
+		case *ssa.UnOp:
+			if x.Op == token.MUL && x.X == u.X {
+				if r := earlierSameLoad(x); r != nil {
+					return r
+				}
+				return x
+			}
+		case *ssa.Store, *ssa.MapUpdate, *ssa.Send, *ssa.Go, *ssa.Defer, *ssa.Select, *ssa.RunDefers:
+			return nil
+		case *ssa.Call:
+			if _, isB := x.Common().Value.(*ssa.Builtin); !isB {
+				return nil
+			}
+			if bi := x.Common().Value.(*ssa.Builtin); bi.Name() == "copy" || bi.Name() == "append" || bi.Name() == "clear" || bi.Name() == "delete" {
+				// copy writes elements, not slice headers: a load of a slice header through a pointer is unaffected
+				// unless the destination aliases the memory holding the header, which a []byte destination cannot
+				// do for a *[]byte location in safe code; append may write to the backing array only
+				continue
+			}
+		}
+	}
+	return nil
 }
 
 func zeroT() term { return term{} }
@@ -1057,8 +1140,8 @@ func (p *prover) prove(fn *ssa.Function, at ssa.Instruction, a, b term, c int64,
 	if implies(s, a, b, c) {
 		return true
 	}
-	if dbg := os.Getenv("SLOGCHECK_F6DBG"); dbg != "" && strings.Contains(p.c.P.pos(at.Pos()), dbg) && p.depth == 0 {
-		fmt.Printf("F6DBG at %s goal %s - %s <= %d\n", p.c.P.pos(at.Pos()), termStr(a), termStr(b), c)
+	if dbg := os.Getenv("SLOGCHECK_F6DBG"); dbg != "" && strings.Contains(p.c.P.pos(at.Pos()), dbg) && (p.depth == 0 || os.Getenv("SLOGCHECK_F6DBGD") != "") {
+		fmt.Printf("F6DBG at %s depth %d gen %d goal %s - %s <= %d\n", p.c.P.pos(at.Pos()), p.depth, p.gen, termStr(a), termStr(b), c)
 		for _, f := range s.fs {
 			fmt.Printf("   %s\n", linStr(f))
 		}
@@ -1066,7 +1149,7 @@ func (p *prover) prove(fn *ssa.Function, at ssa.Instruction, a, b term, c int64,
 			fmt.Printf("   %s - %s != %d\n", termStr(f.a), termStr(f.b), f.c)
 		}
 	}
-	if p.depth >= 3 {
+	if p.depth >= 4 {
 		p.taint = true
 		return false
 	}
@@ -1177,10 +1260,7 @@ func (p *prover) prove(fn *ssa.Function, at ssa.Instruction, a, b term, c int64,
 		if pa != a || pb != b {
 			// a - b <= c  with a = pa + ka, b = pb + kb   <=>   pa - pb <= c - ka + kb
 			if p.goalOverParams(fn, pa, pb) {
-				p.depth++
-				ok := p.prove(fn, at, pa, pb, c-ka+kb, hyp)
-				p.depth--
-				if ok {
+				if p.prove(fn, at, pa, pb, c-ka+kb, hyp) {
 					return true
 				}
 			}
@@ -1298,7 +1378,8 @@ func (p *prover) invariants(fn *ssa.Function) []hypF {
 		alive[i] = true
 	}
 	savedDepth := p.depth
-	p.depth = 1 // candidate checks may look into callees/callers one level less deep
+	p.depth = 0
+	p.nest++
 	for changed := true; changed; {
 		changed = false
 		var hyps []hypF
@@ -1340,6 +1421,7 @@ func (p *prover) invariants(fn *ssa.Function) []hypF {
 		}
 	}
 	p.depth = savedDepth
+	p.nest--
 	var inv []hypF
 	for i, c := range cands {
 		if alive[i] {
@@ -1612,7 +1694,7 @@ func (p *prover) preconds(fn *ssa.Function) []fact {
 		p.preCache[fn] = preEntry{}
 		return nil
 	}
-	if p.depth >= 3 {
+	if p.nest >= 6 {
 		p.taint = true
 		return p.preCache[fn].facts
 	}
@@ -1620,7 +1702,12 @@ func (p *prover) preconds(fn *ssa.Function) []fact {
 	defer delete(p.preBusy, fn)
 	savedTaint := p.taint
 	p.taint = false
+	savedDepth := p.depth
+	p.depth = 0
+	p.nest++
+	defer func() { p.depth = savedDepth; p.nest-- }()
 	var cands []fact
+	var tight []fact // x <= len(y) - k: the largest k <= 64 that holds at every call site is searched
 	for i, x := range fn.Params {
 		switch {
 		case isIntType(x.Type()):
@@ -1634,6 +1721,7 @@ func (p *prover) preconds(fn *ssa.Function) []fact {
 				}
 				if isSeqType(y.Type()) {
 					cands = append(cands, fact{valT(x), lenT(y), 0}, fact{valT(x), lenT(y), -1})
+					tight = append(tight, fact{valT(x), lenT(y), 0})
 				}
 			}
 		case isSeqType(x.Type()):
@@ -1670,25 +1758,48 @@ func (p *prover) preconds(fn *ssa.Function) []fact {
 		}
 	}
 	var out []fact
-	p.depth++
-	for _, cd := range cands {
-		okAll := true
+	holdsAt := func(cd fact) bool {
 		for _, site := range sites {
 			if site.Parent() == fn {
-				okAll = false
-				break
+				return false
 			}
 			na, nb := p.substParam(fn, site, cd.a), p.substParam(fn, site, cd.b)
 			if (cd.a.v != nil && na.v == nil) || (cd.b.v != nil && nb.v == nil) || !p.prove(site.Parent(), site, na, nb, cd.c, nil) {
-				okAll = false
-				break
+				return false
 			}
 		}
-		if okAll {
+		return true
+	}
+	proved := map[fact]bool{}
+	for _, cd := range cands {
+		if holdsAt(cd) {
 			out = append(out, cd)
+			proved[cd] = true
 		}
 	}
-	p.depth--
+	for _, cd := range tight {
+		one := cd
+		one.c = -1
+		if !proved[one] {
+			continue
+		}
+		lo, hi := int64(1), int64(64) // holds for lo, unknown above
+		for lo < hi {
+			mid := (lo + hi + 1) / 2
+			try := cd
+			try.c = -mid
+			if holdsAt(try) {
+				lo = mid
+			} else {
+				hi = mid - 1
+			}
+		}
+		if lo > 1 {
+			best := cd
+			best.c = -lo
+			out = append(out, best)
+		}
+	}
 	if dbg := os.Getenv("SLOGCHECK_F6INV"); dbg != "" && strings.Contains(anchorName(fn), dbg) {
 		fmt.Printf("F6PRE %s: %d call sites, %d candidates\n", anchorName(fn), len(sites), len(cands))
 		for _, f := range out {
@@ -1736,7 +1847,7 @@ func (p *prover) retSummary(callee *ssa.Function, ridx int) []retFact {
 		p.taint = true
 		return p.retCache[k].facts
 	}
-	if p.depth >= 3 {
+	if p.nest >= 6 {
 		p.taint = true
 		return p.retCache[k].facts
 	}
@@ -1749,6 +1860,10 @@ func (p *prover) retSummary(callee *ssa.Function, ridx int) []retFact {
 	defer delete(p.retBusy, k)
 	savedTaint := p.taint
 	p.taint = false
+	savedDepth := p.depth
+	p.depth = 0 // a summary is an independent, cached computation
+	p.nest++
+	defer func() { p.depth = savedDepth; p.nest-- }()
 	// holds(cd): the candidate holds at every return (constant results that fail become exceptions)
 	holds := func(cd retFact) (bool, []int64) {
 		var except []int64
@@ -1782,7 +1897,6 @@ func (p *prover) retSummary(callee *ssa.Function, ridx int) []retFact {
 		}
 		return false
 	}
-	p.depth++
 	try(retFact{coefRet: -1, c: 0}) // ret >= 0
 	try(retFact{coefRet: -1, c: 1}) // ret >= -1
 	for i, prm := range callee.Params {
@@ -1815,7 +1929,6 @@ func (p *prover) retSummary(callee *ssa.Function, ridx int) []retFact {
 			}
 		}
 	}
-	p.depth--
 	if old, ok := p.retCache[k]; !ok || len(old.facts) != len(out) {
 		p.grew = true
 	}
@@ -2056,8 +2169,32 @@ func (p *prover) knownCallers(fn *ssa.Function) ([]ssa.CallInstruction, bool) {
 	if p.asValue[fn] {
 		return nil, false
 	}
+	if p.live == nil {
+		// functions reachable from the program entry points (main, package initialisers): call sites in dead
+		// code (unused exported helpers) say nothing about the values a function receives
+		var roots []*ssa.Function
+		for f := range p.c.P.allFuncs {
+			if f.Pkg == nil || !strings.HasPrefix(fnPkgPath(f), modPath) || f.Parent() != nil {
+				continue
+			}
+			if (f.Name() == "main" && f.Pkg.Pkg.Name() == "main") || f.Name() == "init" || strings.HasPrefix(f.Name(), "init#") {
+				roots = append(roots, f)
+			}
+		}
+		if len(roots) < 10 {
+			broken("program entry points not found (%d)", len(roots))
+		}
+		p.live = map[*ssa.Function]bool{}
+		for f := range p.c.P.reachableFrom(roots, nil) {
+			p.live[f] = true
+		}
+		// goroutine entry points are reached through `go` statements, which are call instructions: covered
+	}
 	var sites []ssa.CallInstruction
 	for _, site := range p.callIdx[fn] {
+		if !p.live[site.Parent()] {
+			continue
+		}
 		// a synthetic wrapper (pointer-receiver / bound-method thunk) that nothing calls or references is dead
 		if w := site.Parent(); w.Synthetic != "" && !p.asValue[w] {
 			if n := p.c.P.cg.Nodes[w]; n == nil || len(n.In) == 0 {
